@@ -48,6 +48,9 @@ def check(repo: Repo, rep, tier):
     from .C01 import import_step
 
     import_step(repo, rep)
+    from .C02 import file_loops_total
+
+    file_loops_total(repo, rep)
 
 
 def steps_of(repo: Repo, key: str) -> Dict[str, list]:
@@ -322,13 +325,35 @@ def tests_per_file(repo: Repo, rep):
         v = lp.target.id
         if not any(isinstance(c, ast.Call) and isinstance(c.func, ast.Name) and c.func.id == v and not c.args for c in ast.walk(lp)):
             continue
-        if not isinstance(lp.iter, ast.Name):
+        it = lp.iter
+        if isinstance(it, ast.Call) and isinstance(it.func, ast.Attribute) and it.func.attr in ("values",) and not it.args:
+            it = it.func.value
+        if not isinstance(it, ast.Name):
             continue
         n += 1
-        coll = lp.iter.id
+        coll = it.id
         file_loops = [a for a in ancestors(lp) if isinstance(a, ast.For) and a is not lp]
         if not file_loops:
-            rep.ok("R-DRIVER-PER-FILE", f, lp, "tests are not run inside a loop over files")
+            # collected first, run afterwards: every test function of every file must still be in the collection - a mapping keyed by the
+            # function's name, filled file after file, keeps only the last of the functions that share a name
+            keyed = [
+                a
+                for fl_ in [x for x in body_nodes(f.node) if isinstance(x, ast.For) and x is not lp]
+                for a in ast.walk(fl_)
+                if (isinstance(a, ast.Call) and isinstance(a.func, ast.Attribute) and a.func.attr in ("update", "setdefault") and isinstance(a.func.value, ast.Name) and a.func.value.id == coll)
+                or (isinstance(a, ast.Subscript) and isinstance(a.ctx, ast.Store) and isinstance(a.value, ast.Name) and a.value.id == coll)
+            ]
+            if keyed:
+                rep.violation(
+                    "R-DRIVER-PER-FILE",
+                    f,
+                    keyed[0],
+                    f"the test functions of all files are collected in the mapping `{coll}` (`{short(keyed[0], 50)}`) before they run: functions of different files that share a name (`test_value` in two files) "
+                    "replace each other, only the last one runs - the other file's snapshots are never recorded or rewritten, a real session runs both",
+                    construct="tests-keyed-by-name",
+                )
+            else:
+                rep.ok("R-DRIVER-PER-FILE", f, lp, "tests are not run inside a loop over files")
             continue
         fl = file_loops[0]
         inside = [a for a in ast.walk(fl) if isinstance(a, ast.Assign) and any(isinstance(t, ast.Name) and t.id == coll for t in a.targets)]
